@@ -57,9 +57,9 @@ OWN_OPS = {
 # ObjSim extend them with their own step kinds
 TAG_OTHER = {"construct": "C03", "set": "C10", "bind": "C10", "copy": "C09", "misuse": "C11", "restart": "C20", "json_rebuild": "C03", "c_read": "C02", "c_set": "C07", "c_call": "C17"}
 TAG_OUT = {"construct": "C03", "set": "C03", "bind": "C03", "copy": "C03", "misuse": "C11", "restart": "C20", "json_rebuild": "C03", "c_read": "C02", "c_set": "C07", "c_call": "C17"}
-STEP_PROP = {"construct": "C01", "set": "C10", "bind": "C08", "copy": "C09", "misuse": "C11", "restart": "C20", "json_rebuild": "C19", "c_read": "C02", "c_set": "C07", "c_call": "C17"}
-INPLACE_KINDS = {"set", "bind", "misuse", "grow", "grow_until", "raw_alloc", "raw_free", "drop_handle", "c_read", "c_set", "c_call"}
-LAYOUT_PROP = {"set": "C10", "bind": "C08", "misuse": "C11", "c_read": "C02", "c_set": "C07", "c_call": "C17"}
+STEP_PROP = {"kill": "C09", "construct": "C01", "set": "C10", "bind": "C08", "copy": "C09", "misuse": "C11", "restart": "C20", "json_rebuild": "C19", "c_read": "C02", "c_set": "C07", "c_call": "C17"}
+INPLACE_KINDS = {"kill", "set", "bind", "misuse", "grow", "grow_until", "raw_alloc", "raw_free", "drop_handle", "c_read", "c_set", "c_call"}
+LAYOUT_PROP = {"kill": "C09", "set": "C10", "bind": "C08", "misuse": "C11", "c_read": "C02", "c_set": "C07", "c_call": "C17"}
 
 
 def gen_world(rng, profile, tier):
@@ -82,6 +82,9 @@ def gen_world(rng, profile, tier):
         "nd_input": rng.random() < 0.7,
         "dims_form": rng.random() < 0.6,
         "cyc3": rng.random() < 0.2,
+        "zero_static": rng.random() < 0.25,
+        "np_dims": rng.random() < 0.15,
+        "kill": rng.random() < 0.5,
         "relocate": rng.random() < 0.6,
         "dirty": rng.random() < 0.6,
         "max_types": rng.choice([3, 5, 8]),
@@ -397,6 +400,8 @@ class GenSource:
             value = {"s": rng.choice(fits or [""])}
             if not fits and cap < 1:
                 return None
+            if rng.random() < 0.3:
+                value["as_obj"] = True  # an xo.String object (with its own, smaller capacity) instead of a str
         return {"op": "set", "obj": o.k, "path": p, "value": value, "via": self._via(o)}
 
     def _via(self, o):
@@ -509,8 +514,21 @@ class GenSource:
             return {"op": "raw_free", "region": rng.choice(live_regions), "scribble": rng.getrandbits(31) if rng.random() < 0.7 else None}
         return {"op": "raw_alloc", "buf": rng.randrange(len(w.spec["buffers"])), "size": rng.choice([1, 3, 8, 13, 24, 64, 100]), "align": rng.random() < 0.5, "fill": rng.getrandbits(31)}
 
+    def kill(self, w):
+        """Free the allocation of a live top-level object (scribbling it first): objects copied
+        or constructed from it earlier must not depend on its storage."""
+        cands = [o for o in w.live_objs() if sum(1 for off, size in o.buf._sim_allocs if off == o.off) == 1 and any(off == o.off and size > 0 for off, size in o.buf._sim_allocs)]
+        if not cands:
+            return None
+        o = self.rng.choice(cands)
+        return {"op": "kill", "obj": o.k, "scribble": self.rng.getrandbits(31)}
+
     def grow(self, w):
         rng = self.rng
+        if self.sw.get("kill") and rng.random() < 0.25:
+            op = self.kill(w)
+            if op is not None:
+                return op
         b = rng.randrange(len(w.spec["buffers"]))
         if rng.random() < 0.3:
             return {"op": "grow_until", "buf": b}
@@ -726,7 +744,7 @@ class Step:
                 continue
             j = int(bad[0])
             inside_other = any(o2 <= j < o2 + s2 for o2, s2 in buf._sim_allocs if (buf, o2, s2) not in [(x, y, z) for x, y, z in self.new_allocs])
-            if self.kind in ("grow", "grow_until", "raw_alloc", "raw_free", "drop_handle"):
+            if self.kind in ("grow", "grow_until", "raw_alloc", "raw_free", "drop_handle", "kill"):
                 prop = "C04"
             elif inside_other:
                 prop = tagmap_other.get(self.kind, "C03")
@@ -1063,6 +1081,44 @@ class Step:
         self.allowed.append((buf, off, off + size))
         buf.free(off, size)
         w.regions[op["region"]] = None
+
+    def op_kill(self):
+        w, op = self.w, self.op
+        o = self.get_obj(op["obj"])
+        alloc = [(off, size) for off, size in o.buf._sim_allocs if off == o.off]
+        if len(alloc) != 1 or alloc[0][1] <= 0 or alloc[0][1] < self._extent(o):
+            raise Skip()  # zero-size neighbours can share an offset: only an unambiguous allocation is freed
+        # never pull storage from under a live reference: nothing inside this object may be the
+        # target of a reference held by another live object
+        inside = set()
+
+        def collect(t, node):
+            if isinstance(node, (M.StructNode, M.ArrayNode, M.StrNode)):
+                inside.add(id(node))
+            ty = w.schema[t]
+            if ty["k"] == "struct":
+                for f in ty["fields"]:
+                    collect(f[1], node.f[f[0]])
+            elif ty["k"] == "array" and w.schema[ty["item"]]["k"] != "sc":
+                for x in node.items:
+                    collect(ty["item"], x)
+
+        collect(o.t, o.node)
+        for x in w.live_objs():
+            if x is o:
+                continue
+            for p, t, n in M.enum_paths(w.schema, x.t, x.node, maxn=400):
+                if isinstance(n, (M.RefLeaf, M.URefLeaf)) and n.to is not None and id(n.to) in inside:
+                    raise Skip()
+        off, size = alloc[0]
+        if size > 0:
+            o.buf.update_from_buffer(off, pbytes(op["scribble"], size))
+        self.allowed.append((o.buf, off, off + size))
+        o.buf.free(off, size)
+        o.alive = False
+        self.res.fault("kill_source")
+        if any(x.copy_of == o.k for x in w.live_objs()):
+            self.res.probe("source_of_a_live_copy_freed_and_scribbled")
 
     def op_grow(self):
         w, op = self.w, self.op
